@@ -445,7 +445,7 @@ func TestVerifC41(t *testing.T) {
 	rec := verifkit.Start(t, "C41", "treeenc")
 	defer rec.Finish()
 	env := rec.Env
-	nTrees := env.Pick(2000, 60000)
+	nTrees := env.Pick(2000, 30000)
 	var nNodes, nOrder, nUnknown int64
 	timeClasses := map[string]int64{}
 
